@@ -13,6 +13,7 @@ pub mod c23;
 pub mod c28;
 pub mod c35;
 pub mod c39;
+pub mod c40;
 pub mod embed;
 pub mod netprops;
 
@@ -40,8 +41,9 @@ pub fn get(id: &str) -> Option<&'static dyn Property> {
         "C28" => Some(&c28::C28),
         "C35" => Some(&c35::C35),
         "C39" => Some(&c39::C39),
+        "C40" => Some(&c40::C40),
         _ => None,
     }
 }
 
-pub const ALL_IDS: &[&str] = &["C01", "C02", "C03", "C07", "C08", "C09", "C10", "C11", "C12", "C13", "C15", "C17", "C21", "C22", "C23", "C26", "C27", "C28", "C35", "C39"];
+pub const ALL_IDS: &[&str] = &["C01", "C02", "C03", "C07", "C08", "C09", "C10", "C11", "C12", "C13", "C15", "C17", "C21", "C22", "C23", "C26", "C27", "C28", "C35", "C39", "C40"];
